@@ -29,6 +29,13 @@ CONFIGS_QUICK = [
     # calls without a timeout: every wait must still end once its reply has arrived, whoever read it
     ('block1,block2', 'r1,r2,inf'),
     ('block1,dispatch', 'r1,inf'),
+    # calls made and signals sent while the other threads run: serials are handed out, pending calls registered and
+    # messages queued concurrently with blocking waits and dispatch; every serial non-zero and distinct (also across
+    # the wrap of the 32-bit counter), every call completed with its own reply
+    ('call3,call4', 'r3,r4'),
+    ('call3,block1', 'r1,r3'),
+    ('call3,send', 'r3,wrap'),
+    ('call3,dispatch', 'r3'),
 ]
 CONFIGS_THOROUGH = CONFIGS_QUICK + [
     ('block1,block2', 'r1,r2,x'),
@@ -46,7 +53,18 @@ CONFIGS_THOROUGH = CONFIGS_QUICK + [
     ('block1,block2,dispatch', 'r1,r2,inf'),
     ('block2,dispatch', 'r1,r2,inf'),
     ('block1,block2', 'r1,r2,x,inf'),
+    ('call3,call4', 'r3,r4,wrap'),
+    ('call3,call4', 'r4,inf'),
+    ('call3,block1', 'r1,r3,wrap'),
+    ('call3,cancel1', 'r1,r3'),
+    ('call3,close', 'r3'),
+    ('call3,send', 'r3'),
+    ('call3,send', 'x'),
+    ('call3,call4,dispatch', 'r3,r4'),
+    ('call3,block1,send', 'r1,r3,wrap'),
+    ('send,send', 'wrap'),
 ]
+ENVIDX = {1: 0, 2: 1, 3: 4, 4: 5}      # position of "the peer replied to call i" in vsched's env= string
 LOCAL_ERRORS = ('org.freedesktop.DBus.Error.NoReply', 'org.freedesktop.DBus.Error.Disconnected', 'org.freedesktop.DBus.Error.Timeout')
 ENV = dict(os.environ, ASAN_OPTIONS='detect_leaks=0:abort_on_error=0:exitcode=99', UBSAN_OPTIONS='halt_on_error=1:exitcode=98')
 
@@ -90,6 +108,8 @@ def execute(bodies, env, sched, tree='asan', free=False, timeout=30):
             kv = dict(x.split('=') for x in cm.group(8).split(','))
             d['reply'] = {'type': int(kv['type']), 'rserial': int(kv['rserial']), 'own': int(kv['own']), 'err': kv['err']}
         res['calls'][i] = d
+    sm = re.search(r'serials=([\d,]*)', m.group(5))
+    res['serials'] = [int(x) for x in sm.group(1).split(',') if x] if sm else []
     if p.returncode != 0 and res['status'] == 'ok':
         res['status'] = 'crash'
     return res
@@ -113,8 +133,18 @@ def judge(bodies, env, sched, r, free=False):
         return vs
     bl = bodies.split(',')
     closing = 'close' in bl
+    ser = r.get('serials', [])
+    if any(x == 0 for x in ser):
+        v('serial-zero', 'threads', 'a message was given serial 0 (serials handed out: %s)' % ser)
+    if len(set(ser)) != len(ser):
+        v('serial-reused', 'threads', 'two messages sent on the connection were given the same serial (serials handed out: %s)' % ser)
+    for b in bl:
+        if b.startswith('call') and int(b[4]) not in r['calls']:
+            v('call-not-made', 'threads', 'thread body %s did not obtain a pending call' % b)
     for i, c in sorted(r['calls'].items()):
         rep = c['reply']
+        own_thread = ('call%d' % i) in bl        # made by a thread: no notify function (see vsched.c), its own blocking wait must return
+        replied = r['envdone'][ENVIDX[i]] == '1'
         if c['notified'] > 1:
             v('notified-twice', 'threads', 'call %d: notify function ran %d times' % (i, c['notified']))
         if c['completed'] and rep is None and not c['cancelled']:
@@ -122,7 +152,7 @@ def judge(bodies, env, sched, r, free=False):
         if rep is not None:
             if rep['rserial'] != rep['own']:
                 v('wrong-reply', 'threads', 'call %d (serial %d) completed with a message whose reply_serial is %d' % (i, rep['own'], rep['rserial']))
-            if rep['type'] == 2 and not (r['envdone'][i - 1] == '1'):
+            if rep['type'] == 2 and not replied:
                 v('reply-from-nowhere', 'threads', 'call %d completed with a method return although the peer never replied' % i)
             if rep['type'] == 3 and rep['err'] not in LOCAL_ERRORS:
                 v('wrong-reply', 'threads-error-name', 'call %d completed with unexpected error %s' % (i, rep['err']))
@@ -130,13 +160,15 @@ def judge(bodies, env, sched, r, free=False):
             if c['notified'] and c['notify_step'] > c['cancel_step']:
                 v('cancelled-call-notified', 'block-after-cancel' if ('block%d' % i) in bl else 'other-path', 'call %d: notify function ran (step %d) after dbus_pending_call_cancel() had returned (step %d)' % (i, c['notify_step'], c['cancel_step']))
             continue
-        if c['completed'] and c['notified'] != 1:
+        if own_thread and not c['block_returned']:
+            v('block-never-returned', 'threads', 'the thread that made call %d never came back from its blocking wait' % i)
+        if c['completed'] and c['notified'] != 1 and not own_thread:
             v('not-notified', 'threads', 'call %d is completed but its notify function ran %d times' % (i, c['notified']))
         if c['block_returned'] and not c['completed']:
             v('block-returned-incomplete', 'threads', 'dbus_pending_call_block() returned for call %d but the call is not completed' % i)
         # the peer replied, nobody cancelled, the connection was not closed locally and no timer fired: must be the reply
         timer = any(k == 'f' for (_, _, k) in r['points'])
-        if r['envdone'][i - 1] == '1' and not closing and not timer and not free:
+        if replied and not closing and not timer and not free:
             if not (rep and rep['type'] == 2):
                 v('reply-lost', 'threads', 'the peer replied to call %d and no timeout fired, but the call did not complete with that reply' % i)
     return vs
